@@ -3,6 +3,7 @@
    observable.  Used identically by the extracted OCaml driver and by the
    in-Coq vm_compute evaluation. *)
 From Lungo.Model Require Import Compare RunAccess ApiOps RunOplog RunSpec RunSort File RunMatch.
+From Lungo.Spec Require Import RunRef.
 Open Scope string_scope.
 
 Definition bad : string := "BAD-CASE".
